@@ -112,17 +112,30 @@ func (c *Contract) hasProp(id string) bool {
 }
 
 type ContractSet struct {
-	ByKey    map[string]*Contract
-	Order    []string
-	Families []*Contract
-	Theories map[string][]string  // name -> smt lines
-	SpecSigs map[string][2]string // uninterpreted spec functions: name -> (argument sorts, result sort)
-	Files    []string
-	Assumes  []string // every `assume` clause found (reported)
+	ByKey     map[string]*Contract
+	Order     []string
+	Families  []*Contract
+	Theories  map[string][]string  // name -> smt lines
+	SpecSigs  map[string][2]string // uninterpreted spec functions: name -> (argument sorts, result sort)
+	Files     []string
+	Assumes   []string             // every `assume` clause found (reported)
+	TrustedIn map[string]*Contract // "declaring package|callee key" -> trusted declaration
+}
+
+// lookup finds the contract callers in package fromPkg use for callee key: the function's own verified contract,
+// else the trusted declaration of fromPkg, else the first trusted declaration in package-path order.
+func (cs *ContractSet) lookup(key, fromPkg string) *Contract {
+	if c := cs.ByKey[key]; c != nil && !c.Trusted {
+		return c
+	}
+	if c := cs.TrustedIn[fromPkg+"|"+key]; c != nil {
+		return c
+	}
+	return cs.ByKey[key]
 }
 
 func newContractSet() *ContractSet {
-	return &ContractSet{ByKey: map[string]*Contract{}, Theories: map[string][]string{}, SpecSigs: map[string][2]string{}}
+	return &ContractSet{TrustedIn: map[string]*Contract{}, ByKey: map[string]*Contract{}, Theories: map[string][]string{}, SpecSigs: map[string][2]string{}}
 }
 
 var sigRe = regexp.MustCompile(`^(\([^)]*\)\.[^\s(\[]+|[^\s(\[]+)\s*(?:\(([^)]*)\))?(?:\s*\(([^)]*)\))?\s*(?:\[([^\]]*)\])?\s*(.*)$`)
@@ -257,10 +270,19 @@ func (cs *ContractSet) loadFile(path, pkgPath string) error {
 				continue
 			}
 			cur.Key = qualify(pkgPath, m[1])
+			if cur.Trusted {
+				// a trusted declaration is what the functions of ITS package assume about the callee: it is looked up
+				// by (declaring package, callee) first, so that the same callee may be trusted with different clauses in
+				// different packages without one declaration silently shadowing the other
+				pk := pkgPath + "|" + cur.Key
+				if prev, dup := cs.TrustedIn[pk]; dup {
+					return fail(i, "duplicate trusted declaration for %s in package %s (also line %d)", cur.Key, pkgPath, prev.Line)
+				}
+				cs.TrustedIn[pk] = cur
+			}
 			if old, dup := cs.ByKey[cur.Key]; dup {
 				if old.Trusted && cur.Trusted {
-					// identical trusted declarations in several files are tolerated; first wins
-					cur = &Contract{Invs: map[int][]*SExpr{}, At: map[string][]AtClause{}, Trusted: true, Key: "dup:" + cur.Key}
+					// global fallback for packages without a declaration of their own: the first in package-path order
 					continue
 				}
 				if old.Trusted && !cur.Trusted {
@@ -269,6 +291,7 @@ func (cs *ContractSet) loadFile(path, pkgPath string) error {
 					continue
 				}
 				if !old.Trusted && cur.Trusted {
+					delete(cs.TrustedIn, pkgPath+"|"+cur.Key) // the verified contract of the function is what callers use
 					cur = &Contract{Invs: map[int][]*SExpr{}, At: map[string][]AtClause{}, Trusted: true, Key: "dup:" + cur.Key}
 					continue
 				}
